@@ -1,0 +1,66 @@
+//go:build verif
+
+package comp
+
+// Read-only views of the coherence machinery for the verification harness
+// (build tag verif). Nothing here is used by the simulator itself.
+
+// VerifLine is one cache line (Data aliases the cache's own slice).
+type VerifLine struct {
+	Base int32
+	Data []int8
+}
+
+// VerifCore is the state of one cache controller.
+type VerifCore struct {
+	// Lines are all lines held by L1; Resident are those not being evicted.
+	Lines    []VerifLine
+	Resident []VerifLine
+	// ReadBusy / WriteBusy / SnoopBusy tell whether the coroutine is mid-request.
+	ReadBusy, WriteBusy, SnoopBusy bool
+}
+
+// VerifState is the MSI state of one (core, line): 0 invalid, 1 shared, 2 modified.
+type VerifState struct {
+	Core  int
+	Addr  int32
+	State int32
+}
+
+// VerifCommand is a snoop command that has not completed yet.
+type VerifCommand struct {
+	Core    int
+	Addr    int32
+	Request int32
+	Done    bool
+}
+
+// VerifSem is the lock counter pair of one line.
+type VerifSem struct {
+	Addr        int32
+	Read, Write int
+}
+
+// VerifSnap is one per-cycle snapshot.
+type VerifSnap struct {
+	LineSize   int32
+	L3LineSize int32 // 0 if there is no L3
+	Cores      []VerifCore
+	States     []VerifState
+	Commands   []VerifCommand
+	Sems       []VerifSem
+	L3         []VerifLine
+	Memory     []int8 // aliases the machine's memory
+}
+
+// VerifCounts returns the lock counters.
+func (s *Sem) VerifCounts() (read, write int) { return s.read, s.write }
+
+// VerifLines converts cache lines.
+func VerifLines(ls []Line) []VerifLine {
+	out := make([]VerifLine, 0, len(ls))
+	for _, l := range ls {
+		out = append(out, VerifLine{Base: int32(l.Boundary[0]), Data: l.Data})
+	}
+	return out
+}
